@@ -1122,6 +1122,34 @@ class Item:
                 continue
             self.rewrite(cpos, cpos + len("break"), "return", "R3-break-return")
 
+    def r3_let_loop_break(self, fn, k):
+        """`let V = loop { .. break E; .. };` (this Verus has no `break` with a value)  ==>
+        let mut vx_lb: T = INIT; loop { .. { vx_lb = E; break; } .. } let V = vx_lb;        (T and INIT from `loopinit`)"""
+        ls = self.loops(fn)
+        if k > len(ls) or ls[k - 1][0] != "loop":
+            raise Undecided("LOST-ANCHOR: R3 let-loop-break loop %d of fn %s in %s" % (k, fn, self.where()))
+        _, s, bopen, bclose = ls[k - 1]
+        s0 = self._stmt_start(s)
+        mo = re.match(r"let\s+([A-Za-z_]\w*)\s*=\s*$", self.text[s0:s])
+        semi = bclose + 1
+        while self.text[semi].isspace():
+            semi += 1
+        if not mo or self.text[semi] != ";" or fn not in getattr(self, "loop_init", {}):
+            raise Undecided("R3 let-loop-break: `let V = loop { .. };` with a loopinit expected at %s:%d" % (self.relpath, self.line_of(s0)))
+        var = mo.group(1)
+        ty, init = self.loop_init[fn]
+        inner = [x for x in ls if bopen < x[1] < bclose]
+        self.rewrite(s0, s, "let mut vx_lb: %s = %s;\n  " % (ty, init), "R3-let-loop-break")
+        for c in re.finditer(r"\bbreak\b\s*([^;]*);", self.m[bopen + 1:bclose]):
+            cpos = bopen + 1 + c.start()
+            if any(lo_ < cpos < lc_ for (_, _, lo_, lc_) in inner):
+                continue
+            expr = self.text[bopen + 1 + c.start(1):bopen + 1 + c.end(1)].strip()
+            if not expr:
+                raise Undecided("R3 let-loop-break: a `break` without a value")
+            self.rewrite(cpos, bopen + 1 + c.end(), "{ vx_lb = %s; break; }" % expr, "R3-let-loop-break")
+        self.rewrite(semi, semi + 1, "\n  let %s = vx_lb;" % var, "R3-let-loop-break")
+
     def r3_for_rev(self, fn, k):
         """for PAT in RECV.iter().rev() { BODY }  ==>  index loop from RECV.len() down to 0
         (the index is decremented at the start of the body, so break/continue need no rewriting)"""
@@ -1396,6 +1424,10 @@ def build_unit(unit_path, repo=REPO):
                 # liftgenerics <fn> "<'a, T: Bound>": generic parameters of the lifted fn
                 it.lift_generics = getattr(it, "lift_generics", {})
                 it.lift_generics[args[0]] = args[1]
+            elif name == "loopinit":
+                # loopinit <fn> "<type>" "<initial value>": for R3 let-loop-break
+                it.loop_init = getattr(it, "loop_init", {})
+                it.loop_init[args[0]] = (args[1], args[2])
             elif name == "liftR4":
                 # liftR4 <fn> "<old>" "<new>": an R4 redirection applied inside the closure body that lift-filter-map lifts
                 it.lift_r4 = getattr(it, "lift_r4", {})
